@@ -69,7 +69,24 @@ def gen_job(rng):
 SUFFIX = {'WG': '_WG.pgm', 'NASU': '_NASU.pgm', 'MK': '_MK.pgm'}
 
 
-def run_writer(kind, objs, cfgd, filename, export_dir):
+def flat(objs):
+    return [o for g in objs for o in (g if isinstance(g, list) else [g])]
+
+
+def remutate(rng, kind, objs):
+    """scans / adjacent-pass settings are public attributes: changed between two exports of the same writer"""
+    for o in flat(objs):
+        if kind == 'NASU':
+            o.adj_scan = rng.randint(1, 8)
+            o.adj_scan_shift = (rng.choice([0, 0.002]), rng.choice([0.0003, 0.0, -0.001]), rng.choice([0, 0.0004]))
+        elif rng.random() < 0.7:
+            o.scan = rng.randint(1, 5)
+    if kind == 'WG':
+        for g in objs:        # a group shares the repeat count of its first member; keep the others' scans as generated
+            pass
+
+
+def run_writer(kind, objs, cfgd, filename, export_dir, again=None):
     from femto.writer import WaveguideWriter, NasuWriter, MarkerWriter
     for p in pathlib.Path('.').iterdir():
         if p.is_dir():
@@ -87,6 +104,11 @@ def run_writer(kind, objs, cfgd, filename, export_dir):
         raised = 0
         try:
             w.pgm(verbose=False)
+            if again is not None:
+                again()
+                for p in pathlib.Path('.').rglob('*.pgm'):
+                    p.unlink()
+                w.pgm(verbose=False)
         except ValueError:
             raised = 1
     files = sorted(str(p) for p in pathlib.Path('.').rglob('*') if p.is_file())
@@ -114,8 +136,10 @@ def run(rep: common.Report, tier: str, seed: int):
         cfgd = pgm.gen_cfg(rng, allow_bad_laser=False)
         filename = rng.choice(['dev.pgm', 'dev', 'chip.v2.pgm', 'sub/dev.pgm'])
         export_dir = rng.choice(['', '', 'out', 'out/deep'])
-        files, expected, raised = run_writer(kind, objs, cfgd, filename, export_dir)
-        case = dict(descr, kind=kind, cfg=cfgd, filename=filename, export_dir=export_dir)
+        twice = bool(objs) and rng.random() < 0.3
+        files, expected, raised = run_writer(kind, objs, cfgd, filename, export_dir,
+                                             again=(lambda: remutate(rng, kind, objs)) if twice else None)
+        case = dict(descr, kind=kind, cfg=cfgd, filename=filename, export_dir=export_dir, exported_twice_with_changed_scans=twice)
         hist['kinds'][kind] = hist['kinds'].get(kind, 0) + 1
         # naming / emptiness (file-system level)
         if not objs:
